@@ -441,7 +441,8 @@ R.contract("Node._check_timers", params={"self": "Node", "conn": "PeerConnection
            modifies=["conn.hop_by_hop_seq._sequence", "self.end_to_end_seq._sequence", "conn.state", "conn._last_dwr",
                      "*PeerConnection.state", "*Peer.connection", "*Peer.disconnect_reason", "*Peer.last_disconnect",
                      "dict:self.connections", "dict:self.peer_sockets", "dict:self._peer_waiting_answer", "*Event.flag",
-                     "*StoppableThread.stopped", "*Socket.closed"],
+                     "*StoppableThread.stopped", "*Socket.closed", "dict:self.socket_peers",
+                     "dict:self._half_ready_connections", "*list:Peer"],
            props=["C11", "C06", "C18"],
            note="total decision function over (stopping, state, virtual clock readings, node and per-peer timers)")
 
